@@ -371,6 +371,59 @@ example : ReqShape.lateChecks (Gen.ReqShape.armEvs .root_AddBlock) = 0 ∧
     ReqShape.lateChecks [.mutate .map false, .mutate .tracker false, .persist .chan, .persist .tracker, .check, .check,
       .mutate .map false, .persist .chan] = 2 := by decide
 
+/-! #### `Handler::with_persist`: a refused request with stranded mutations aborts the signer
+
+The second sentence of the property ("a transactional store never ends a refused request with pending mutations")
+is enforced at run time by `Handler::with_persist` (handler.rs:173): it enters a persister transaction, runs the
+request, takes the pending mutations with `prepare()`, and *panics* if the request was refused while mutations are
+pending.  `Gen.ReqShape.withPersistForm` is only emitted when the source has exactly that form.  On the model: for a
+request in the discipline the abort is unreachable, and a refused request hands back an empty log. -/
+
+/-- what `with_persist` sees: the signer's state and the log of pending mutations (`prepare()` = its content) -/
+structure TxSt (μ : Type) where
+  st : μ
+  pending : Nat
+
+inductive WpRes | ok (muts : Nat) | err | panic
+  deriving DecidableEq, Repr
+
+/-- `with_persist(f)`: `enter()` starts an empty log, the request runs, `prepare()` reads the log;
+    `Ok(()) => Ok(muts)`, `Err(e) => { if !muts.is_empty() { panic!(..) } Err(e) }` -/
+def withPersist {μ : Type} (prog : List (Stmt (TxSt μ))) (s : μ) : TxSt μ × WpRes :=
+  let r := exec prog { st := s, pending := 0 }
+  if r.2 then (r.1, .ok r.1.pending)
+  else if r.1.pending = 0 then (r.1, .err) else (r.1, .panic)
+
+/-- **C10 (with_persist)**: a request in the validate-then-mutate discipline never reaches the "stranded
+    mutations" abort; when it is refused, state and log are what they were when the transaction was entered. -/
+theorem C10_with_persist {μ : Type} (prog : List (Stmt (TxSt μ))) (s : μ) (hd : checksFirst prog = true) :
+    (withPersist prog s).2 ≠ .panic ∧
+    ((exec prog { st := s, pending := 0 }).2 = false → withPersist prog s = ({ st := s, pending := 0 }, .err)) := by
+  unfold withPersist
+  cases hr : (exec prog { st := s, pending := 0 }).2 with
+  | true => simp [hr]
+  | false =>
+    have hf := C10_frame_general prog { st := s, pending := 0 } hd hr
+    simp [hr, hf]
+
+/-- … in particular for every state-changing arm of the protocol handler outside `expectedLateArm`, whatever its
+    checks test and its effects do (to the state or to the log) -/
+theorem C10_gen_arm_with_persist {μ : Type} (a : Gen.ReqShape.Arm) (ha : a ∉ expectedLateArm.map (·.1))
+    (chk : Nat → TxSt μ → Bool) (eff : Nat → TxSt μ → TxSt μ) (s : μ) :
+    (withPersist (toStmts chk eff 0 (Gen.ReqShape.armEvs a)) s).2 ≠ .panic := by
+  refine (C10_with_persist _ s ?_).1
+  apply late_false_checksFirst
+  revert ha
+  cases a <;> decide +kernel
+
+/-- the form of `with_persist` the model mirrors is the one in the source -/
+theorem C10_gen_with_persist_form : Gen.ReqShape.withPersistForm = true := rfl
+
+/-- the abort is reachable outside the discipline: a persist in front of a refusing check (the shape of seed
+    C10-r6-1: `self.persist()?` in front of `release_commitment_secret(..)?`) strands a mutation -/
+example : (withPersist (μ := Nat) [.effect (fun t => { t with pending := t.pending + 1 }), .check (fun _ => false)] 0).2 = .panic := by
+  decide
+
 /-! #### The node-request model has the extracted order
 
 The hand-written model functions of `Model/NodeReq.lean` are *instances* of the extracted shapes: running the
